@@ -232,12 +232,25 @@ def npzbatch (toks : List String) : Option String := do
   | none => pure "err=1"
   | some b => pure s!"err=0 batch={b}"
 
+/-- `gen.vrpcalls | n k num den k num den … | n … | …` (one section per call: size, then the `capacities` override
+triples) → the capacities a history of `generate_vrp_data` calls writes (`Persist.vrpCalls`) -/
+def vrpcalls (toks : List String) : Option String := do
+  let _ :: cs ← parseSections toks | none
+  let rec trip : List Int → Option Persist.CapTable
+    | [] => some []
+    | k :: a :: b :: r => (trip r).map (fun t => (k.toNat, ((a, b.toNat) : Frac)) :: t)
+    | _ => none
+  let calls ← cs.mapM (fun c => match c with
+    | n :: r => (trip r).map (fun ov => (ov, n.toNat))
+    | _ => none)
+  pure s!"caps={",".intercalate ((Persist.vrpCalls calls).map optFrac)}"
+
 def handlers : List (String × (List String → Option String)) :=
   [("gen.aff", aff), ("gen.tbl", tbl), ("gen.cvrp", cvrp), ("gen.opprize", opprize), ("gen.pctsp", pctsp),
    ("gen.cvrptw", cvrptw), ("gen.mtvrpcap", mtvrpcap), ("gen.mtvrpdem", mtvrpdem), ("gen.mtvrptw", mtvrptw), ("gen.mtvrptwgen", mtvrptwgen),
    ("gen.keep", keep), ("gen.atsp", atsp), ("gen.ops", ops), ("gen.fjspcol", fjspcol), ("gen.jsspcol", jsspcol),
    ("gen.mcpclamp", mcpclamp), ("gen.mcprow", mcprow), ("gen.fjspwrite", fjspwrite), ("gen.fjspread", fjspread),
    ("gen.jsspwrite", jsspwrite), ("gen.jsspread", jsspread), ("gen.loaddemand", loaddemand),
-   ("gen.loadrows", loadrows), ("gen.npzbatch", npzbatch)]
+   ("gen.loadrows", loadrows), ("gen.npzbatch", npzbatch), ("gen.vrpcalls", vrpcalls)]
 
 end Rl4co.Driver.Gen
